@@ -50,6 +50,24 @@ def run_translator():
         r = {'generated': [], 'failed': [{'file': '?', 'item': 'translate.py', 'error': err[-400:]}]}
     return r
 
+def import_closure(module):
+    """Lean modules (FlacModel.*, Driver.*) reachable from `module` through `import` lines"""
+    seen = set(); todo = [module]
+    while todo:
+        m = todo.pop()
+        if m in seen or not (m.startswith('FlacModel') or m.startswith('Driver')):
+            continue
+        seen.add(m)
+        path = os.path.join(LEAN, *m.split('.')) + '.lean'
+        try:
+            for l in open(path):
+                mm = re.match(r'\s*import\s+(\S+)', l)
+                if mm:
+                    todo.append(mm.group(1))
+        except OSError:
+            pass
+    return seen
+
 # ------------------------------------------------------------------------------------------------
 # step 2: proofs
 # ------------------------------------------------------------------------------------------------
